@@ -7,6 +7,7 @@ void harness(void)
 {
     vw_dict_alloc();
     H_BUF = H_NULLBUF ? (uint8_t *)0 : malloc(H_BUFSZ);
+    __CPROVER_assume(H_LEN <= H_BUFSZ);
     G_EXP_ON = 1; G_EXP_SIZE = H_LEN; G_EXP_BUF = H_BUF; G_EXP_PARA = 0;
     uint32_t c0 = G_READ_N + G_WRITE_N;
 #if VW_WRITE == 0
